@@ -96,6 +96,7 @@ type smWorld struct {
 	stratCalls     map[string]int // "kind/h/r"
 	prevoteAnswers map[string][]string
 	decideDueAt    map[string]int // "h/r" -> event count when a precommit decision became due
+	decideDueWhy   map[string]string
 	eventCount     int
 	signed         map[string]map[string]bool
 	saved          map[string]bool // signature -> saved in action store
@@ -266,18 +267,19 @@ func (w *smWorld) noteShown(v tmconsensus.VersionedRoundView) {
 	}
 	// a precommit decision becomes due (rule 4)
 	if _, ok := w.decideDueAt[k]; !ok {
-		due := false
+		due, why := false, ""
+		if 3*w.shown.totalPrecommit >= tot {
+			due, why = true, "minority-precommits-shown"
+		}
 		for h, p := range w.shown.prevotePow {
 			_ = h
 			if 3*p > 2*tot {
-				due = true
+				due, why = true, "prevote-quorum-shown"
 			}
-		}
-		if 3*w.shown.totalPrecommit >= tot {
-			due = true
 		}
 		if due {
 			w.decideDueAt[k] = w.eventCount
+			w.decideDueWhy[k] = why
 		}
 	}
 }
@@ -596,7 +598,7 @@ func runSM(s *vsimcore.Sim, p vsimcore.Params) vsimcore.RunInfo {
 	fx := tmconsensustest.NewEd25519Fixture(n)
 	w := &smWorld{s: s, fx: fx, n: n, rounds: map[string]*smRound{}, committed: map[uint64]tmconsensus.CommittedHeader{},
 		lastSent: map[string]uint32{}, finalizeAsked: map[uint64]string{}, finalizeResp: map[uint64]bool{}, finSaved: map[uint64]bool{},
-		stratCalls: map[string]int{}, prevoteAnswers: map[string][]string{}, decideDueAt: map[string]int{}, signed: map[string]map[string]bool{},
+		stratCalls: map[string]int{}, prevoteAnswers: map[string][]string{}, decideDueAt: map[string]int{}, decideDueWhy: map[string]string{}, signed: map[string]map[string]bool{},
 		saved: map[string]bool{}, released: map[string]bool{}, advanceOK: map[string]string{},
 		aStore: tmmemstore.NewActionStore(), fStore: tmmemstore.NewFinalizationStore(), smStore: tmmemstore.NewStateMachineStore()}
 	w.oracles = map[string]bool{}
@@ -997,7 +999,7 @@ func (w *smWorld) checkDue() {
 		return // the round ended at once (commit or nil quorum): nothing is owed
 	}
 	if w.eventCount-at >= 2 {
-		w.violate("C08/never-asks-decide-precommit", "in round %s a precommit decision became due (prevote quorum shown, prevote delay elapsed or >= 1/3 precommits shown) but the strategy was never asked and the state machine is idle; shown: prevotes %v precommits %v", k, w.shown.prevotePow, w.shown.precommitPow)
+		w.violate("C08/never-asks-decide-precommit/"+w.decideDueWhy[k], "in round %s a precommit decision became due (%s) but the strategy was never asked and the state machine is idle; shown: prevotes %v precommits %v", k, w.decideDueWhy[k], w.shown.prevotePow, w.shown.precommitPow)
 	}
 }
 
@@ -1111,6 +1113,7 @@ func (w *smWorld) mirrorActions() []vsimcore.Action {
 				if t.kind == "prevotedelay" {
 					if _, ok := w.decideDueAt[fmt.Sprintf("%d/%d", t.h, t.r)]; !ok {
 						w.decideDueAt[fmt.Sprintf("%d/%d", t.h, t.r)] = w.eventCount
+						w.decideDueWhy[fmt.Sprintf("%d/%d", t.h, t.r)] = "prevote-delay-elapsed"
 					}
 				}
 				w.mu.Unlock()
